@@ -428,6 +428,21 @@ ALIASES = collections.OrderedDict([
 ])
 
 
+VPROP_INNER = [["Float"], ["Int"], ["CInt"], ["CStr"], ["Bool"], ["Range", 0.0, 1.0, False, True], ["Range", 0, 3, True, False],
+               ["PrefixList", ["yes", "no", "yeah"]], ["Tuple", [["Float"], ["Str"]]], ["Enum", [1, 2, "a", None]],
+               ["List", ["Int"], 0, None], ["Instance", "Foo", False, None], ["Either", [["Int"], ["Str"]]],
+               ["String", 1, 3, ""]]
+
+
+def vprop_attrs(inner):
+    def _get_x(self):
+        return self.__dict__.get("_x")
+
+    def _set_x(self, v):
+        self.__dict__["_x"] = v
+    return {"x": T.Property(L.build(inner)), "_get_x": _get_x, "_set_x": _set_x}
+
+
 def configs():
     out = []
     for cls in ACLASSES:
@@ -454,6 +469,10 @@ def configs():
                 out.append({"kind": "dynrange", "base": base, "xl": xl, "xh": xh})
     out.append({"kind": "dynenum"})
     out += [{"kind": "alias", "name": n} for n in ALIASES]
+    # a Property declared WITH a trait and a setter: "assignments are validated by the trait", the setter receives the
+    # validated (converted) value
+    for inner in VPROP_INNER:
+        out.append({"kind": "vprop", "inner": inner})
     return out
 
 
@@ -487,6 +506,8 @@ def attrs_for(cfg):
         return {"vals": T.List([1, 2, "a", None, (1, 2)]), "x": T.Enum(values="vals")}
     if k == "alias":
         return {"x": ALIASES[cfg["name"]][0]()}
+    if k == "vprop":
+        return vprop_attrs(cfg["inner"])
     raise AssertionError(k)
 
 
@@ -513,7 +534,7 @@ def run_seq(cfg, route, vals, ctx):
     cls = type("Owner", (T.HasTraits,), ns)
     obj = cls()
     obj.other, obj.tag = 7, "u"
-    expect = EXPECT.get(cfg["kind"]) or lattice_expect(ALIASES[cfg["name"]][1])
+    expect = EXPECT.get(cfg["kind"]) or lattice_expect(cfg["inner"] if cfg["kind"] == "vprop" else ALIASES[cfg["name"]][1])
     cid = cfg_id(cfg)
     for i, enc in enumerate(vals):
         v = V.dec(enc)
